@@ -389,3 +389,321 @@ Proof.
     go_run. unfold ret, wr_result. cbn [fst snd w_n err_of]. reflexivity.
 Qed.
 Print Assumptions gen_MarshalBytes_refines.
+
+(* container.SliceCopy: a fresh array holding the elements of v *)
+Lemma gen_SliceCopy_spec h v : wf_slice h v ->
+  Gen.SliceCopy v h = Ok (mkSl (length h) 0 (s_len v) (s_len v), h ++ [sl_get h v]).
+Proof.
+  intros W. pose proof W as (Wa & Wo & Wl & Wc & Wm).
+  pose proof (sl_get_len h v W) as L. unfold zlen in L.
+  unfold Gen.SliceCopy. go_run. unfold ret.
+  rewrite sl_get_grow by exact W.
+  match goal with |- context [firstn ?n (sl_get h v)] =>
+    replace n with (length (sl_get h v)) by lia end.
+  rewrite firstn_all, sl_put_new by (unfold zlen; lia). reflexivity.
+Qed.
+
+(* what UnmarshalBytes / UnmarshalString do according to the model result: the
+   returned slice is the sub-slice buf[v_off : v_off+len] of the input
+   (newBuf=false) or a fresh array holding the same bytes (newBuf=true) *)
+Definition rdb_result (r : dres bview) (h : heap) (buf : gslice)
+  : outcome ((Z * gslice * error) * heap) :=
+  match r with
+  | DOk n v =>
+      let ln := Z.of_nat (length (v_data v)) in
+      if v_alias v
+      then Ok ((Z.of_nat n,
+                mkSl (s_arr buf) (s_off buf + Z.of_nat (v_off v)) ln (s_cap buf - Z.of_nat (v_off v)),
+                ENil), h)
+      else Ok ((Z.of_nat n, mkSl (length h) 0 ln ln, ENil), h ++ [zs (v_data v)])
+  | DErr => Ok ((0, nil_slice, Err), h)
+  | DPanic => GoPanic
+  end.
+
+Lemma skipn_ns k l : skipn k (ns l) = ns (skipn k l).
+Proof. unfold ns. apply skipn_map. Qed.
+
+Lemma byte_list_zsub l lo n : byte_list l -> byte_list (zsub l lo n).
+Proof.
+  intros H. unfold zsub, byte_list in *. apply Forall_firstn_z.
+  rewrite Forall_forall in *. intros x Hx. apply H.
+  rewrite <- (firstn_skipn (Z.to_nat lo) l). apply in_or_app. right. exact Hx.
+Qed.
+
+Theorem gen_UnmarshalBytes_refines : forall h buf extra newBuf,
+  wf_slice h buf -> byte_list (sl_get h buf) -> 7 * s_len buf < 18446744073709551616 ->
+  Gen.UnmarshalBytes buf newBuf h =
+  rdb_result (unmarshal_bytes (ns (sl_get h buf)) extra newBuf) h buf.
+Proof.
+  intros h buf extra newBuf W Hb Hlen. pose proof W as (Wa & Wo & Wl & Wc & Wm).
+  pose proof (sl_get_len h buf W) as L. unfold zlen in L.
+  unfold Gen.UnmarshalBytes.
+  pose proof (gen_UnmarshalUint_refines h buf W Hb Hlen) as R.
+  pose proof (unmarshal_uint_bounds (ns (sl_get h buf))) as Hbd.
+  destruct (unmarshal_uint (ns (sl_get h buf))) as [idx uln| |] eqn:Eu;
+    [|unfold unmarshal_bytes; rewrite Eu; go_call R; reflexivity|contradiction].
+  unfold rd_result in R. go_call R.
+  rewrite length_ns in Hbd.
+  assert (HlenN : (Z.of_nat (length (ns (sl_get h buf))) < two63Z)) by (rewrite length_ns; unfold two63Z; lia).
+  rewrite (unmarshal_bytes_spec _ extra newBuf idx uln HlenN Eu) by (rewrite length_ns; lia).
+  rewrite length_ns. cbv beta iota zeta. cbn [is_nil negb].
+  go_unwrap.
+  destruct (N.ltb_spec (N.of_nat (length (sl_get h buf) - idx)) uln) as [Hlt|Hge].
+  - (* the length prefix exceeds what is left *)
+    go_run; reflexivity.
+  - assert (Hd : ns (zsub (sl_cap h buf) (Z.of_nat idx) (Z.of_N uln)) =
+                 firstn (N.to_nat uln) (skipn idx (ns (sl_get h buf)))).
+    { rewrite skipn_ns, firstn_ns. f_equal. rewrite sl_get_cap by exact W. unfold zsub.
+      rewrite Nat2Z.id. rewrite skipn_firstn_comm, firstn_firstn. f_equal. lia. }
+    assert (Hbl : byte_list (zsub (sl_cap h buf) (Z.of_nat idx) (Z.of_N uln))).
+    { rewrite sl_get_cap in Hb by exact W. unfold zsub. rewrite Nat2Z.id.
+      replace (firstn (Z.to_nat (Z.of_N uln)) (skipn idx (sl_cap h buf)))
+        with (firstn (Z.to_nat (Z.of_N uln)) (skipn idx (firstn (Z.to_nat (s_len buf)) (sl_cap h buf))))
+        by (rewrite skipn_firstn_comm, firstn_firstn; f_equal; lia).
+      apply Forall_firstn_z. unfold byte_list in Hb. rewrite Forall_forall in *. intros x Hx. apply Hb.
+      rewrite <- (firstn_skipn idx (firstn _ _)). apply in_or_app. right. exact Hx. }
+    assert (Hdl : Z.of_nat (length (firstn (N.to_nat uln) (skipn idx (ns (sl_get h buf))))) = Z.of_N uln)
+      by (rewrite firstn_length, skipn_length, length_ns; lia).
+    unfold rdb_result. cbn [v_alias v_data v_off].
+    go_run; go_unwrap.
+    + (* newBuf: a copy *)
+      match goal with |- context [Gen.SliceCopy ?s] =>
+        assert (Ws : wf_slice h s) by (apply wf_reslice; [exact W|lia|lia]);
+        go_call (gen_SliceCopy_spec h s Ws);
+        pose proof (sl_get_reslice h buf (Z.of_nat idx) (Z.of_nat idx + Z.of_N uln) W ltac:(lia) ltac:(lia)) as G
+      end.
+      replace (Z.of_nat idx + Z.of_N uln - Z.of_nat idx) with (Z.of_N uln) in * by lia.
+      rewrite G. cbv beta iota zeta. unfold ret. cbn [s_len]. rewrite Hdl, <- Hd, (zs_ns _ Hbl).
+      repeat f_equal; lia.
+    + (* the sub-slice itself *)
+      unfold ret. rewrite Hdl. repeat f_equal; lia.
+Qed.
+Print Assumptions gen_UnmarshalBytes_refines.
+
+(** * Strings: the same bytes (the casts are the identity) *)
+
+Theorem gen_MarshalString_refines : forall h buf v,
+  wf_slice h buf -> wf_slice h v -> s_arr buf <> s_arr v -> byte_list (sl_get h v) ->
+  Gen.MarshalString v buf h =
+  wr_result (marshal_string (ns (sl_get h v)) (Z.to_nat (s_len buf))) h buf.
+Proof. intros. unfold Gen.MarshalString, cast_id, marshal_string. apply gen_MarshalBytes_refines; assumption. Qed.
+
+Theorem gen_UnmarshalString_refines : forall h buf extra newBuf,
+  wf_slice h buf -> byte_list (sl_get h buf) -> 7 * s_len buf < 18446744073709551616 ->
+  Gen.UnmarshalString buf newBuf h =
+  rdb_result (unmarshal_string (ns (sl_get h buf)) extra newBuf) h buf.
+Proof.
+  intros h buf extra newBuf W Hb Hlen. unfold Gen.UnmarshalString, unmarshal_string, cast_id.
+  pose proof (gen_UnmarshalBytes_refines h buf extra newBuf W Hb Hlen) as R.
+  destruct (unmarshal_bytes (ns (sl_get h buf)) extra newBuf) as [n v| |];
+    unfold rdb_result in *; [destruct (v_alias v)| |]; cbv beta iota zeta in R;
+    try (go_call R; reflexivity).
+  unfold bind. rewrite R. reflexivity.
+Qed.
+
+(** * Sizes *)
+
+Theorem gen_WritableUintSize_refines : forall v, 0 <= v < 2 ^ 64 ->
+  Gen.WritableUintSize v = Z.of_nat (writable_uint_size (Z.to_N v)).
+Proof.
+  intros v Hv. change (2 ^ 64) with 18446744073709551616 in Hv.
+  unfold Gen.WritableUintSize, writable_uint_size.
+  change bit7 with 128%N. change bit14 with 16384%N. change bit21 with 2097152%N.
+  change bit28 with 268435456%N. change bit35 with 34359738368%N. change bit42 with 4398046511104%N.
+  change bit49 with 562949953421312%N. change bit56 with 72057594037927936%N.
+  change bit63 with 9223372036854775808%N.
+  repeat (go_if; try lia); reflexivity.
+Qed.
+
+Theorem gen_WritebleBytesSize_refines : forall h buf, wf_slice h buf ->
+  s_len buf + 10 < 9223372036854775808 ->   (* otherwise the int addition overflows *)
+  Gen.WritebleBytesSize buf = Z.of_nat (writable_bytes_size (ns (sl_get h buf))).
+Proof.
+  intros h buf W Hov. pose proof W as (Wa & Wo & Wl & Wc & Wm).
+  pose proof (sl_get_len h buf W) as L. unfold zlen in L.
+  unfold Gen.WritebleBytesSize, writable_bytes_size. rewrite length_ns.
+  rewrite (u64_small (s_len buf)) by lia.
+  rewrite gen_WritableUintSize_refines by (change (2^64) with 18446744073709551616; lia).
+  replace (Z.to_N (s_len buf)) with (N.of_nat (length (sl_get h buf))) by lia.
+  assert (Hs : (writable_uint_size (N.of_nat (length (sl_get h buf))) <= 10)%nat).
+  { unfold writable_uint_size.
+    repeat match goal with |- context [if ?c then _ else _] => destruct c end; clear; lia. }
+  rewrite i64_small by lia. lia.
+Qed.
+
+Theorem gen_WritableStringSize_refines : forall h v, wf_slice h v ->
+  s_len v + 10 < 9223372036854775808 ->
+  Gen.WritableStringSize v = Z.of_nat (writable_string_size (ns (sl_get h v))).
+Proof. intros. unfold Gen.WritableStringSize, cast_id, writable_string_size. apply gen_WritebleBytesSize_refines; assumption. Qed.
+
+(** * The headline theorems of C15, directly over the generated functions *)
+
+Lemma ns_zs l : ns (zs l) = l.
+Proof. unfold ns, zs. rewrite map_map. rewrite <- (map_id l) at 2. apply map_ext. intros; apply N2Z.id. Qed.
+
+Lemma ns_app a b : ns (a ++ b) = ns a ++ ns b.
+Proof. apply map_app. Qed.
+
+Lemma byte_list_zs l : wf_bytes l = true -> byte_list (zs l).
+Proof.
+  unfold wf_bytes, byte_list, zs. intros H. rewrite forallb_forall in H.
+  apply Forall_forall. intros x Hx. apply in_map_iff in Hx. destruct Hx as (b & <- & Hb).
+  specialize (H b Hb). unfold wf_byte in H. lia.
+Qed.
+
+Lemma byte_list_app a b : byte_list a -> byte_list b -> byte_list (a ++ b).
+Proof. intros Ha Hb. apply Forall_app. split; assumption. Qed.
+
+Lemma byte_list_skipn k l : byte_list l -> byte_list (skipn k l).
+Proof.
+  unfold byte_list. intros H. rewrite Forall_forall in *. intros x Hx. apply H.
+  rewrite <- (firstn_skipn k l). apply in_or_app. right. exact Hx.
+Qed.
+
+(* the buffer after a Marshal call that stored [d] at its front *)
+Lemma sl_get_after_put h buf d : wf_slice h buf -> zlen d <= s_len buf ->
+  sl_get (sl_put h buf 0 d) buf = d ++ skipn (length d) (sl_get h buf).
+Proof.
+  intros W Hd. rewrite sl_get_put_same by (try exact W; lia). unfold zsplice.
+  cbn [Z.to_nat firstn app Nat.add]. reflexivity.
+Qed.
+
+(* MarshalUint then UnmarshalUint on the same buffer *)
+Theorem gen_uint_roundtrip : forall h buf v,
+  wf_slice h buf -> byte_list (sl_get h buf) -> 7 * s_len buf < 18446744073709551616 ->
+  0 <= v < 2 ^ 64 -> Gen.WritableUintSize v <= s_len buf ->
+  exists h', Gen.MarshalUint v buf h = Ok ((Gen.WritableUintSize v, ENil), h') /\
+             Gen.UnmarshalUint buf h' = Ok ((Gen.WritableUintSize v, v, ENil), h') /\
+             wf_slice h' buf /\
+             sl_get h' buf = zs (enc_uint (Z.to_N v)) ++ skipn (length (enc_uint (Z.to_N v))) (sl_get h buf).
+Proof.
+  intros h buf v W Hb Hlen Hv Hsz. pose proof W as (Wa & Wo & Wl & Wc & Wm).
+  assert (HvN : (Z.to_N v < 2^64)%N) by (change (2^64)%N with 18446744073709551616%N; change (2^64) with 18446744073709551616 in Hv; lia).
+  rewrite gen_WritableUintSize_refines in * by exact Hv.
+  rewrite <- (uint_size _ HvN) in *.
+  set (enc := enc_uint (Z.to_N v)) in *.
+  assert (Hm : marshal_uint (Z.to_N v) (Z.to_nat (s_len buf)) = (WOk, enc)).
+  { rewrite (marshal_uint_buffer _ _ HvN). fold enc.
+    destruct (Nat.ltb_spec (Z.to_nat (s_len buf)) (length enc)); [lia|reflexivity]. }
+  exists (sl_put h buf 0 (zs enc)).
+  assert (W' : wf_slice (sl_put h buf 0 (zs enc)) buf)
+    by (apply wf_slice_put; [exact W|lia|rewrite zlen_zs; lia|exact W]).
+  assert (G : sl_get (sl_put h buf 0 (zs enc)) buf = zs enc ++ skipn (length enc) (sl_get h buf)).
+  { rewrite sl_get_after_put by (try exact W; rewrite zlen_zs; lia). rewrite length_zs. reflexivity. }
+  split; [|split; [|split; [exact W'|exact G]]].
+  - rewrite gen_MarshalUint_refines by assumption. rewrite Hm. reflexivity.
+  - rewrite gen_UnmarshalUint_refines; try assumption.
+    + rewrite G, ns_app, ns_zs. rewrite (uint_roundtrip _ _ HvN). fold enc.
+      unfold rd_result. rewrite Z2N.id by lia. reflexivity.
+    + rewrite G. apply byte_list_app; [apply byte_list_zs, enc_uint_wf|apply byte_list_skipn; exact Hb].
+Qed.
+Print Assumptions gen_uint_roundtrip.
+
+Lemma zsub_app_mid (a b c : list Z) : zsub (a ++ b ++ c) (zlen a) (zlen b) = b.
+Proof.
+  unfold zsub, zlen. rewrite !Nat2Z.id. rewrite skipn_app, skipn_all, Nat.sub_diag. cbn [app skipn].
+  rewrite firstn_app, firstn_all, Nat.sub_diag. cbn [firstn]. apply app_nil_r.
+Qed.
+
+(* MarshalBytes then UnmarshalBytes on the same buffer *)
+Theorem gen_bytes_roundtrip : forall h buf v newBuf,
+  wf_slice h buf -> wf_slice h v -> s_arr buf <> s_arr v ->
+  byte_list (sl_get h buf) -> byte_list (sl_get h v) ->
+  7 * s_len buf < 18446744073709551616 -> s_len v + 10 < 9223372036854775808 ->
+  Gen.WritebleBytesSize v <= s_len buf ->
+  exists h' res h'',
+    Gen.MarshalBytes v buf h = Ok ((Gen.WritebleBytesSize v, ENil), h') /\
+    Gen.UnmarshalBytes buf newBuf h' = Ok ((Gen.WritebleBytesSize v, res, ENil), h'') /\
+    sl_get h'' res = sl_get h v /\
+    (newBuf = false -> h'' = h' /\ s_arr res = s_arr buf) /\
+    (newBuf = true -> s_arr res = length h' /\ h'' = h' ++ [sl_get h v]).
+Proof.
+  intros h buf v newBuf W Wv Hne Hb Hbv Hlen Hov Hsz.
+  pose proof W as (Wa & Wo & Wl & Wc & Wm). pose proof Wv as (Va & Vo & Vl & Vc & Vm).
+  pose proof (sl_get_len h v Wv) as Lv. unfold zlen in Lv.
+  rewrite (gen_WritebleBytesSize_refines h v Wv Hov) in *.
+  set (l := ns (sl_get h v)) in *.
+  assert (Hl : length l = length (sl_get h v)) by apply length_ns.
+  assert (HlN : (N.of_nat (length l) < 2 ^ 64)%N) by (change (2^64)%N with 18446744073709551616%N; lia).
+  destruct (bytes_size l HlN) as [Hsize _].
+  assert (Hm : marshal_bytes l (Z.to_nat (s_len buf)) = (WOk, ow_bytes l)).
+  { rewrite (bytes_buffer l _ HlN).
+    destruct (Nat.ltb_spec (Z.to_nat (s_len buf)) (writable_bytes_size l)); [lia|reflexivity]. }
+  set (enc := ow_bytes l) in *.
+  set (h' := sl_put h buf 0 (zs enc)).
+  assert (W' : wf_slice h' buf)
+    by (apply wf_slice_put; [exact W|lia|rewrite zlen_zs; lia|exact W]).
+  assert (G : sl_get h' buf = zs enc ++ skipn (length enc) (sl_get h buf)).
+  { unfold h'. rewrite sl_get_after_put by (try exact W; rewrite zlen_zs; lia). rewrite length_zs. reflexivity. }
+  assert (Hb' : byte_list (sl_get h' buf)).
+  { rewrite G. apply byte_list_app; [|apply byte_list_skipn; exact Hb].
+    unfold enc, ow_bytes. rewrite (ow_uint_enc _ HlN). unfold zs. rewrite map_app.
+    apply byte_list_app; [apply byte_list_zs, enc_uint_wf|].
+    fold (zs l). unfold l. rewrite zs_ns by exact Hbv. exact Hbv. }
+  assert (L' : zlen (sl_get h' buf) = s_len buf) by (apply sl_get_len; exact W').
+  pose proof (gen_UnmarshalBytes_refines h' buf [] newBuf W' Hb' Hlen) as R.
+  rewrite G, ns_app, ns_zs in R.
+  rewrite (bytes_roundtrip l _ [] newBuf) in R.
+  2:{ pose proof (sl_get_len h buf W) as Lb. unfold zlen in Lb.
+      rewrite app_length, length_ns, skipn_length. fold enc. unfold two63Z. lia. }
+  unfold rdb_result in R. cbn [v_alias v_data v_off] in R. fold enc in R.
+  assert (Hhdr : enc = enc_uint (N.of_nat (length l)) ++ l)
+    by (unfold enc, ow_bytes; rewrite (ow_uint_enc _ HlN); reflexivity).
+  set (hdr := enc_uint (N.of_nat (length l))) in *.
+  assert (Hzl : zs l = sl_get h v) by (unfold l; apply zs_ns; exact Hbv).
+  assert (Ehl : (length hdr + length l = length enc)%nat) by (rewrite Hhdr, app_length; reflexivity).
+  rewrite Hsize in R.
+  destruct newBuf; cbn [negb] in R.
+  - (* a fresh copy *)
+    eexists h', _, _. split; [|split; [exact R|]].
+    + rewrite gen_MarshalBytes_refines by assumption. fold l. rewrite Hm. unfold wr_result, w_n.
+      cbn [fst snd err_of]. fold enc. rewrite Hsize. reflexivity.
+    + rewrite Hzl. split; [|split; [discriminate|intros _; split; reflexivity]].
+      unfold sl_get at 1. cbn [s_arr s_off s_len]. rewrite arr_get_new.
+      rewrite Hl. apply zsub_all.
+  - (* the sub-slice of the input *)
+    eexists h', _, _. split; [|split; [exact R|]].
+    + rewrite gen_MarshalBytes_refines by assumption. fold l. rewrite Hm. unfold wr_result, w_n.
+      cbn [fst snd err_of]. fold enc. rewrite Hsize. reflexivity.
+    + split; [|split; [intros _; split; reflexivity|discriminate]].
+      pose proof (sl_get_reslice_len h' buf (Z.of_nat (length hdr)) (Z.of_nat (length hdr) + Z.of_nat (length l)) W'
+                    ltac:(lia) ltac:(lia)) as S.
+      replace (Z.of_nat (length hdr) + Z.of_nat (length l) - Z.of_nat (length hdr)) with (Z.of_nat (length l)) in S by lia.
+      rewrite S, G, Hhdr. unfold zs. rewrite map_app, <- app_assoc. fold (zs hdr). fold (zs l).
+      rewrite <- (length_zs hdr), <- (length_zs l). rewrite Hzl.
+      apply (zsub_app_mid (zs hdr) (sl_get h v)).
+Qed.
+Print Assumptions gen_bytes_roundtrip.
+
+(** * Non-vacuity: the generated code runs (vm_compute) *)
+
+Example gen_ex_run :
+  let h : heap := [repeat 0 8; [104; 105; 33]; [200; 3; 7]] in
+  let buf := mkSl 0 0 8 8 in
+  let v := mkSl 1 0 3 3 in
+  wf_slice h buf /\ wf_slice h v /\
+  (* MarshalBytes writes the header 3 and the body, UnmarshalBytes finds the
+     body as the sub-slice buf[1:4] *)
+  (match Gen.MarshalBytes v buf h with
+   | Ok ((n, e), h') =>
+       n = 4 /\ e = ENil /\ sl_get h' buf = [3; 104; 105; 33; 0; 0; 0; 0] /\
+       Gen.UnmarshalBytes buf false h' = Ok ((4, mkSl 0 1 3 7, ENil), h') /\
+       Gen.UnmarshalBytes buf true h' = Ok ((4, mkSl 3 0 3 3, ENil), h' ++ [[104; 105; 33]])
+   | _ => False
+   end) /\
+  (* 300 = 0xAC 0x02 *)
+  (match Gen.MarshalUint 300 buf h with
+   | Ok ((n, e), h') => n = 2 /\ e = ENil /\ sl_get h' buf = [172; 2; 0; 0; 0; 0; 0; 0] /\
+                        Gen.UnmarshalUint buf h' = Ok ((2, 300, ENil), h')
+   | _ => False
+   end) /\
+  (* a buffer that is too short: error after the bytes that fit were stored *)
+  Gen.MarshalUint 300 (mkSl 0 0 1 8) h = Ok ((0, Err), [[172; 0; 0; 0; 0; 0; 0; 0]; [104; 105; 33]; [200; 3; 7]]) /\
+  (* a truncated varint: error, not a panic *)
+  Gen.UnmarshalUint (mkSl 2 0 1 3) h = Ok ((0, 0, Err), h) /\
+  Gen.UnmarshalUint (mkSl 2 0 2 3) h = Ok ((2, 456, ENil), h) /\
+  Gen.WritebleBytesSize v = 4.
+Proof.
+  cbv zeta. split; [unfold wf_slice, zlen; cbn; lia|]. split; [unfold wf_slice, zlen; cbn; lia|].
+  vm_compute. repeat split; reflexivity.
+Qed.
